@@ -107,7 +107,12 @@ Texts ==
      [n |-> "s_huge_bit31",    t |-> B64Encode(Huge(62))],
      [n |-> "all_ff",          t |-> B64Encode([i \in 1..65 |-> 255])],
      [n |-> "all_00",          t |-> B64Encode([i \in 1..65 |-> 0])],
-     \* tolerated spellings: strict RFC 4648 says "not base64", lenient decoders read the good signature
+     \* characters outside ASCII (written <U+hhhh> here, the harness puts the character in): not base64 either
+     [n |-> "nonascii_latin",     t |-> SubSeq(TGood, 1, 40) \o <<"<U+00E9>">> \o SubSeq(TGood, 42, 88)],
+     [n |-> "nonascii_lookalike", t |-> <<"<U+0397>">> \o SubSeq(TGood, 2, 88)],       \* Greek capital Eta for the first character
+     [n |-> "nonascii_linesep",   t |-> TGood \o <<"<U+2028>">>],
+     [n |-> "nonascii_surrogate", t |-> SubSeq(TGood, 1, 87) \o <<"<U+D800>">>],
+     [n |-> "nonascii_only",      t |-> <<"<U+00E9>", "<U+00E9>", "<U+00E9>", "<U+00E9>">>],
      [n |-> "lenient_newline", t |-> TGood \o <<"\n">>],
      [n |-> "lenient_space",   t |-> <<" ">> \o TGood],
      [n |-> "lenient_bits",    t |-> SubSeq(TGood, 1, 86) \o <<B64Sym(B64Index(TGood[87]) + 1), "=">>] >>
